@@ -588,6 +588,69 @@ def r14_5(run):
     run.count("in-place re-shapes of a tensor's array", n)
 
 
+
+_CONVERT = {"array", "asarray", "copy", "ascontiguousarray", "asanyarray", "astype"}
+
+
+def r14_6(run):
+    """a gradient that may be None is never converted unguarded.  `<t>.grad` / `<t>._grad` read None whenever the tensor holds no gradient;
+    np.array(None) / np.copy(None) / np.asarray(None) is a 0-d *object* array, i.e. a non-None `.grad` that is neither of the tensor's dtype nor of
+    its shape (and indexing it raises).  Every conversion of such a read that flows into a `_grad` store must sit on the not-None edge of a
+    test of that same read."""
+    from ..cfg import CFG, ENTRY as _E, reaching_defs as _rd
+    n = 0
+    for fi, mod, st, t, val, kind in tensor_grad_stores(run):
+        if fi is None or val is None or is_none_value(val):
+            continue
+        cfg = build_cfg(run, fi)
+        at = cfg.node_for(st)
+        if at is None:
+            continue
+
+        def grad_reads(e):
+            return [x for x in ast.walk(e) if isinstance(x, ast.Attribute) and x.attr in ("grad", "_grad") and isinstance(x.ctx, ast.Load)]
+
+        def guarded(read_text, node_expr):
+            # inside an IfExp testing the same read for None
+            p_ = getattr(node_expr, "_parent", None)
+            while p_ is not None and p_ is not st:
+                if isinstance(p_, ast.IfExp) and read_text in norm(p_.test) and "None" in norm(p_.test):
+                    return True
+                p_ = getattr(p_, "_parent", None)
+            # or the statement is control-dependent on such a test
+            for tnode, tst in cfg.stmt.items():
+                if cfg.label.get(tnode) == "If" and read_text in norm(tst) and "None" in norm(tst):
+                    if cfg.edge_dominates(tnode, "true", at) or cfg.edge_dominates(tnode, "false", at):
+                        return True
+            return False
+
+        for call in [x for x in ast.walk(val) if isinstance(x, ast.Call)]:
+            d = dotted(call.func) or ""
+            leaf = d.split(".")[-1] if d else (call.func.attr if isinstance(call.func, ast.Attribute) else "")
+            if leaf not in _CONVERT:
+                continue
+            subject = call.args[0] if (d.split(".")[0] in ("np", "numpy") and call.args) else (call.func.value if isinstance(call.func, ast.Attribute) else None)
+            if subject is None:
+                continue
+            reads = grad_reads(subject) if not isinstance(subject, ast.Name) else []
+            if isinstance(subject, ast.Name):
+                for dnode in _rd(cfg, subject.id, at):
+                    if dnode != _E:
+                        v2 = getattr(cfg.stmt[dnode], "value", None)
+                        if isinstance(v2, ast.Attribute) and v2.attr in ("grad", "_grad"):
+                            reads.append(ast.Name(id=subject.id, ctx=ast.Load()))
+            for r in reads:
+                if isinstance(r, ast.Attribute) and norm(r) == norm(t):
+                    continue  # re-casting the slot's own current value in an accumulation: a value is present
+                n += 1
+                rt = norm(r)
+                ok = guarded(rt, call)
+                run.ob("R14.6", loc(fi, call), fi.short, f"`{norm(call)[:50]}` converts `{rt}` only when it is not None", ok,
+                       f"on the not-None edge of a test of `{rt}`" if ok else
+                       f"`{rt}` is None whenever the tensor holds no gradient; {leaf}(None) is a 0-d object array: the tensor then reports a non-None .grad "
+                       f"that has neither its dtype nor its shape")
+    run.count("conversions of possibly-None gradients", n)
+
 def check(run):
     run.rule("R14.1", "closed set of writers of Tensor._grad (and of wholesale __dict__ copies)", floor=10)
     run.rule("R14.2", "seed: dtype=self.dtype / *_like(self.data); stored only after the shape test is false; mismatch raises before any store", floor=6)
@@ -599,3 +662,5 @@ def check(run):
     run.do(r14_3)
     run.rule("R14.5", "an in-place change of a tensor's array shape restores it or drops the tensor's gradient", floor=2)
     run.do(r14_5)
+    run.rule("R14.6", "a possibly-None gradient read is converted (np.array / np.copy / astype ...) only under a not-None test of that read", floor=1)
+    run.do(r14_6)
